@@ -390,7 +390,9 @@ func (g *specGen) Generate() J {
 		comps["responses"] = J{"NotFound": J{"description": "nf", "content": nf}, "Denied": J{"description": "denied"}}
 	}
 	if r.Chance(30) {
-		comps["parameters"] = J{"limit": J{"name": "limit", "in": "query", "schema": J{"type": "integer"}}}
+		// "trace" is only ever referred to from the shared parameter list of a path item
+		comps["parameters"] = J{"limit": J{"name": "limit", "in": "query", "schema": J{"type": "integer"}},
+			"trace": J{"name": "X-Trace", "in": "header", "schema": J{"type": "string"}}}
 	}
 	if r.Chance(30) {
 		comps["requestBodies"] = J{"PetBody": J{"content": J{"application/json": J{"schema": g.ref()}}}}
@@ -504,6 +506,10 @@ func (g *specGen) Generate() J {
 			}
 			pi[m] = op
 			g.count("op")
+		}
+		if _, ok := comps["parameters"]; ok && r.Chance(40) {
+			pi["parameters"] = []interface{}{J{"$ref": "#/components/parameters/trace"}}
+			g.count("path:shared-component-parameter")
 		}
 		paths["/"+strings.Join(segs, "/")] = pi
 	}
